@@ -93,6 +93,71 @@ pub fn run(rep: &mut Rep) {
         };
         rep.transcript.push(format!("dec {} {} => {}", case, crate::rng::hash_bytes(&bytes), d));
     }
+    // ---- decodable response / nested / enumeration types (everything C15 calls bidirectional)
+    let table = crate::mon::c15::schema_table();
+    let n = rep.n(10_000, 250_000);
+    for i in 0..n * rep.nshards {
+        case += 1;
+        if !rep.mine(case) {
+            continue;
+        }
+        let mut rng = Rng::derive(seed, "c16r", case);
+        let which = (i % (table.len() as u64 + 10)) as usize;
+        let (name, bytes): (&str, Vec<u8>) = if which < table.len() {
+            let (name, s) = &table[which];
+            let k = schema::n_optional(s);
+            (*name, crate::mon::c15::gen_lossless(s, &mut rng, i / 26, k))
+        } else {
+            let mut c = Ctl::new(&mut rng);
+            c.common_only = true;
+            c.small = i % 3 == 0;
+            match which - table.len() {
+                0 | 1 | 2 => {
+                    let (_, m) = crate::resp::gen_get_info(&mut c);
+                    ("get_info::Response", encode(&m))
+                }
+                3 => {
+                    let (_, m) = crate::resp::gen_client_pin(&mut c);
+                    ("client_pin::Response", encode(&m))
+                }
+                4 => {
+                    let (_, m) = crate::resp::gen_large_blobs(&mut c);
+                    ("large_blobs::Response", encode(&m))
+                }
+                5 => {
+                    let (_, m) = crate::resp::gen_ctap_options(&mut c);
+                    ("CtapOptions", encode(&m))
+                }
+                6 => {
+                    let k = c.rng.below(4);
+                    let (_, m) = crate::resp::gen_cose(c.rng, k);
+                    ("cosey::PublicKey", encode(&m))
+                }
+                7 => {
+                    // every identifier of every string enumeration, valid and near-miss spellings
+                    let all = ["FIDO_2_0", "FIDO_2_1", "FIDO_2_1_PRE", "U2F_V2", "credProtect", "hmac-secret", "largeBlobKey", "thirdPartyPayment", "nfc", "usb", "none", "packed", "tpm", "FIDO_2_2", "minPinLength"];
+                    let t = all[c.rng.usize(all.len())];
+                    let ty = ["Version", "Extension", "Transport", "AttestationStatementFormat"][c.rng.usize(4)];
+                    (ty, encode(&crate::cbor::V::text(t)))
+                }
+                _ => {
+                    let ty = ["PinV1Subcommand", "Subcommand", "CredentialProtectionPolicy"][c.rng.usize(3)];
+                    (ty, encode(&crate::cbor::V::U(c.rng.below(12))))
+                }
+            }
+        };
+        if !rep.begin(&format!("rdec/{}", name)) {
+            continue;
+        }
+        rep.input(&bytes, true);
+        let line = match crate::mon::c15::rt_named(name, &bytes) {
+            Ok(crate::mon::c15::Rt::Done { reencoded, redecoded_equal }) => format!("Ok {} eq={:?}", hex(&reencoded), redecoded_equal),
+            Ok(crate::mon::c15::Rt::Rejected(e)) => format!("Rejected {}", e),
+            Ok(crate::mon::c15::Rt::SerErr(e)) => format!("SerErr {}", e),
+            Err(p) => format!("PANIC {}", crate::report::panic_site(&p)),
+        };
+        rep.transcript.push(format!("rdec {} {} {} => {}", case, name, hex(&bytes[..bytes.len().min(64)]), line));
+    }
     // the feature-dependent constant, reported per configuration
     rep.note(
         "LARGE_BLOB_MAX_FRAGMENT_LENGTH",
